@@ -583,7 +583,7 @@ func refHandshake(h *hrun, role string, val uint32, rng *rand.Rand) *refPeer {
 		return p
 	}
 	p.pos = 96 + n3
-	if val&refwire.CryptoRC4 != 0 {
+	if val&refwire.CryptoRC4 != 0 && !(ambiguousGoesPlain && val&3 == 3) {
 		p.RC4, p.enc, p.dec = true, rsp.Out, rsp.In
 	}
 	s4 := rsp.Step4()
@@ -673,6 +673,12 @@ func startStorrent(sc net.Conn, role string, o *crypto.Options, cryptoHS bool) (
 	}()
 	return st, done
 }
+
+// A responder whose crypto_select has both method bits set may carry on either way.  By default the
+// reference responder then encrypts; with this set it carries on in plaintext (the policy clauses judge
+// whatever storrent establishes; a storrent that refuses such a word, as the specification's "single
+// method" wording suggests, is never judged).  Only touched between bubbles of one process.
+var ambiguousGoesPlain bool
 
 var provideVals = []uint32{0, 1, 2, 3, 4, 0x80000000, 0x80000001, 0x80000002, 0x80000003, 0xfffffffc, 0xfffffffd, 0xfffffffe, 0xffffffff, 0x00000102}
 var selectVals = []uint32{0, 1, 2, 3, 4, 0x80000000, 0x80000001, 0x80000002, 0x00010001, 0x00010002, 0xffffffff}
@@ -836,6 +842,16 @@ func runDirect(t *testing.T, r *vk.Run, base int) {
 				bubble(t, func() {
 					for _, v := range vals {
 						refCell(c, seen, role, oi, v, rng)
+					}
+					if role == "client" {
+						ambiguousGoesPlain = true
+						for _, v := range vals {
+							if v&3 == 3 {
+								c.Count("ambiguous_select_plain_cells", 1)
+								refCell(c, seen, role, oi, v, rng)
+							}
+						}
+						ambiguousGoesPlain = false
 					}
 				})
 				c.FP(vk.Hash64("refwire", role, oi), true)
